@@ -54,12 +54,36 @@ def check_recipe(r, tier, seed, rep=None, want=None):
     V = c.b.variables_for(wrt)
     idx = np.flatnonzero(m)
     okidx = np.flatnonzero(ok)
-    for path in ("recursive", "memo", "iterative"):
+    # non-initial memo: the formula as a DAG of shared objects whose sub-expressions were differentiated first
+    dag = None
+    if size(r) > 1:
+        try:
+            from mc.build import Builder
+            from mc.interp import walk, kind_of
+            from optyx.core.expressions import Expression
+
+            bs = Builder(params=c.params, share_scalars=True)
+            root = bs.build(r)
+            Vd = bs.variables_for(wrt)
+            for sub in sorted({s_ for s_ in walk(r) if kind_of(s_) == "s" and s_ != r}, key=lambda t: (size(t), repr(t))):
+                o = bs.build(sub)
+                if isinstance(o, Expression):
+                    for var in Vd:
+                        autodiff.gradient(o, var)
+            if isinstance(root, Expression):
+                dag = (root, Vd)
+        except Exception as ex:
+            fails.add("exception:gradient:dag-bottom-up:" + type(ex).__name__, msg=str(ex)[:200])
+    for path in ("recursive", "memo", "iterative", "dag-bottom-up"):
+        if path == "dag-bottom-up" and dag is None:
+            continue
         for i, var in enumerate(V):
             try:
                 if path == "iterative":
                     with threshold(0, autodiff):
                         ge = autodiff.gradient(c.e, var)
+                elif path == "dag-bottom-up":
+                    ge = autodiff.gradient(dag[0], dag[1][i])
                 else:
                     ge = autodiff.gradient(c.e, var)
             except Exception as ex:
